@@ -1,6 +1,8 @@
 """C06 - gc removes exactly the unused objects and never a used one."""
 
+import glob
 import itertools
+import json
 import os
 
 from lib import impl
@@ -12,13 +14,28 @@ RULE = (
     "stores are built from <=3 file objects, <=2 directory objects over them (shared files, a listed "
     "file that is absent), an unused directory object and a stray file; used sets range over store ids, "
     "an absent id and an id of another algorithm; x shallow/expanding x dry/real x store class x "
-    "read-only x loadable/corrupt/missing directory object in cache_odb. quick: seeded sample; thorough: "
-    "the full product. A case is non-trivial when gc removed at least one object and kept at least one, "
-    "or raised."
+    "read-only x loadable/corrupt/missing directory object in cache_odb x the container kind in which the "
+    "used set is handed to gc (list, set, tuple, frozenset, generator, iter(list), map object; drawn from "
+    "the seeded rng - the one-shot kinds can be consumed only once). quick: seeded sample; thorough: "
+    "the full product. On top: a LARGE-store stream (the small structure plus 1000..2300 tiny planted file "
+    "objects - sizes on and around multiples of fs.LIST_OBJECT_PAGE_SIZE=1000 - of which 0..3 are used; dry "
+    "and real, both store classes; 32-hex md5 names and short 5-hex names) and a medium stream (20..999). "
+    "corpus/C06/*.json runs first. A case is non-trivial when gc removed at least one object and kept at "
+    "least one, or raised."
 )
 ASSUMPTIONS = [
     "odb.all() lists exactly the files at <root>/<2 chars>/<rest> (dvc_objects; observed independently by os.listdir)",
     "Tree.load raises FileNotFoundError / ObjectFormatError for a missing / unparsable directory object",
+    "the model takes the used set as a list: the claim checked is that gc is agnostic to the container kind "
+    "(Iterable[HashInfo]); for set/frozenset the harness observes the iteration order (list(container)) and "
+    "passes that order to the model (it only decides WHICH load error is reported; C06_used_set: an Ok result "
+    "depends on the membership of `used` alone)",
+    "the theorems are unbounded in the size of the store (C06_store_app: the decision on an object does not "
+    "depend on the rest of the store), so size cannot matter in the model; the large-store stream exists because "
+    "a batching/paging implementation could make size matter in the real code. Large stores hold real files "
+    "planted with lib.impl.plant; model and implementation see the same names (no aliasing); the short 5-hex "
+    "names exist only to keep the Coq literals of the biggest stores small - gc never inspects the shape of a "
+    "name beyond the '.dir' suffix and dvc_objects lists every <2 chars>/<rest> file",
 ]
 
 IMPORTS = "From Coq Require Import NArith List.\nFrom DvcData Require Import Model.Gc."
@@ -48,6 +65,72 @@ def gen_cases(ctx):
     return out, fo, dirs, F
 
 
+USED_KINDS = ("list", "set", "tuple", "frozenset", "generator", "iter", "map")
+ONE_SHOT = ("generator", "iter", "map")
+
+
+def bulk_oids(b):
+    """names of the planted bulk file objects of a large-store case: B<i> -> oid"""
+    if not b:
+        return {}
+    if b.get("shape", "md5") == "md5":
+        return {f"B{i}": impl.md5hex(b"bulk-%d" % i) for i in range(b["n"])}
+    # short names: 5 hex chars -> <store>/<2>/<3>; never collide with 32-hex names or '.dir' names
+    return {f"B{i}": "%05x" % (0x10000 + i) for i in range(b["n"])}
+
+
+def plant_bulk(store, oids):
+    """impl.plant for thousands of tiny read-only file objects with fewer system calls
+    (same layout: <store>/<2 chars>/<rest>, mode 0444, one byte of content)"""
+    made = set()
+    for o in oids:
+        d = os.path.join(store, o[:2])
+        if d not in made:
+            os.makedirs(d, exist_ok=True)
+            made.add(d)
+        fd = os.open(os.path.join(d, o[2:]), os.O_WRONLY | os.O_CREAT | os.O_EXCL, 0o444)
+        os.write(fd, b"b")
+        os.close(fd)
+
+
+def interleave(small, big):
+    """one list of correspondence items + the shard size that puts every big item (a large
+    store: a big Coq literal) at the head of its own shard, so that they compile in parallel"""
+    if not big:
+        return list(small), 250
+    shard = max(8, min(250, len(small) // len(big) + 1))
+    out, si = [], 0
+    for b in big:
+        out.append(b)
+        out.extend(small[si:si + shard - 1])
+        si += shard - 1
+    out.extend(small[si:])
+    return out, shard
+
+
+def as_container(kind, used):
+    """the same used HashInfos in the container kind under test -> (container, iteration order)"""
+    if kind == "list":
+        return list(used), list(used)
+    if kind == "tuple":
+        return tuple(used), list(used)
+    if kind in ("set", "frozenset"):
+        c = set(used) if kind == "set" else frozenset(used)
+        return c, list(c)  # iteration order of an unmodified set is stable: observe it
+    if kind == "generator":
+        return (h for h in used), list(used)
+    if kind == "iter":
+        return iter(list(used)), list(used)
+    if kind == "map":
+        return map(lambda h: h, used), list(used)
+    raise ValueError(kind)
+
+
+def _few(lst, k=6):
+    lst = list(lst)
+    return f"{lst[:k]}" + (f" (+{len(lst) - k} more)" if len(lst) > k else "")
+
+
 def run_case(ctx, case, fo, dirs, F):
     """returns (input_term, impl_val, oracle problems)"""
     from dvc_objects.errors import ObjectDBPermissionError, ObjectFormatError
@@ -67,6 +150,9 @@ def run_case(ctx, case, fo, dirs, F):
         doid[dn] = impl.dir_oid(lst)
     for dn in case["dirs"]:
         impl.plant(store, doid[dn], impl.canon_listing(dirs[dn]))
+    bulk = bulk_oids(case.get("bulk"))
+    plant_bulk(store, bulk.values())
+    names = {**doid, **bulk}  # symbolic name in the case -> oid
     if case.get("stray"):
         impl.plant(store, "zz" + "tmpstray", b"partial", mode=0o644)
         with open(os.path.join(store, "rootfile"), "wb") as f:
@@ -91,7 +177,10 @@ def run_case(ctx, case, fo, dirs, F):
     before = impl.walk_store(store)
     odb = impl.make_odb(cls, store, read_only=case.get("ro", False), hash_name=alg)
     cache_odb = impl.make_odb(cls, cache, hash_name=alg) if cache != store else None
-    used = [HashInfo(n, doid.get(v, v)) for n, v in case["used"]]
+    case_used = [(n, v) for n, v in case["used"]]
+    case_used += [("md5", f"B{i}") for i in case.get("bulk", {}).get("used", [])]
+    kind = case.get("used_kind", "list")
+    used, order = as_container(kind, [HashInfo(n, names.get(v, v)) for n, v in case_used])
     try:
         n = gc(odb, used, cache_odb=cache_odb, shallow=case["shallow"], dry=case["dry"])
         res = ("ok", n)
@@ -112,12 +201,20 @@ def run_case(ctx, case, fo, dirs, F):
             trees_term.append(cpair(cbytes(doid[dn]), copt([cbytes(h) for _, h in dirs[dn]], clist)))
         elif trees[dn] in ("corrupt", "notalist"):
             trees_term.append(cpair(cbytes(doid[dn]), "None"))
+    hexnames = set(bulk.values()) if case.get("bulk", {}).get("shape", "md5") == "md5" else set()
+
+    def coid(o):  # a bulk 32-hex name as (oid_hex32 0x...): the same list N, a cheaper literal
+        return f"(oid_hex32 0x{o})" if o in hexnames else cbytes(o)
+
+    def cset(oids):  # vset with the cheaper literals (sorted by code point, deduplicated)
+        return vset(oids) if not hexnames else "VL [" + "; ".join(f"VB {coid(o)}" for o in sorted(set(oids))) + "]"
+
     inp = ("{| g_store := %s; g_alg := %s; g_ro := %s; g_used := %s; g_trees := %s; g_shallow := %s; g_dry := %s |}"
-           % (clist([cbytes(o) for o in sorted(before)]), cbytes(alg), cbool(case.get("ro", False)),
-              clist([cpair(cbytes(n), cbytes(doid.get(v, v))) for n, v in case["used"]]),
+           % (clist([coid(o) for o in sorted(before)]), cbytes(alg), cbool(case.get("ro", False)),
+              clist([cpair(cbytes(h.name), cbytes(h.value)) for h in order]),
               clist(trees_term), cbool(case["shallow"]), cbool(case["dry"])))
     if res[0] == "ok":
-        exp = vL([vN(1), vN(res[1]), vset(after.keys())])
+        exp = vL([vN(1), vN(res[1]), cset(after.keys())])
     elif res[0] == "err":
         exp = vL([vN(0), vN(res[1])])
     else:
@@ -127,10 +224,10 @@ def run_case(ctx, case, fo, dirs, F):
     problems = []
     used_set = set()
     load_fail = False
-    for n, v in case["used"]:
+    for n, v in case_used:
         if n != alg:
             continue
-        v = doid.get(v, v)
+        v = names.get(v, v)
         used_set.add(v)
         if v.endswith(".dir") and not case["shallow"]:
             dn = [k for k, o in doid.items() if o == v][0]
@@ -153,15 +250,17 @@ def run_case(ctx, case, fo, dirs, F):
     else:
         lost_used = [o for o in before if o in used_set and o not in after]
         if lost_used:
-            problems.append(("C06:removed-used", f"used object(s) removed: {lost_used}"))
+            problems.append(("C06:removed-used", f"used object(s) removed (used handed over as {kind}): {_few(lost_used)}"))
         unused = [o for o in before if o not in used_set]
         if case["dry"]:
             if after != before:
-                problems.append(("C06:dry-modified", "dry run changed the store"))
+                gone = [o for o in before if o not in after]
+                problems.append(("C06:dry-modified", f"dry run changed the store of {len(before)} objects: "
+                                                     f"{len(gone)} removed, e.g. {_few(gone, 3)}"))
         else:
             kept_unused = [o for o in unused if o in after]
             if kept_unused:
-                problems.append(("C06:kept-unused", f"unused object(s) not removed: {kept_unused}"))
+                problems.append(("C06:kept-unused", f"unused object(s) not removed: {_few(kept_unused)}"))
             if any(after[o] != before[o] for o in after if o in before) or set(after) - set(before):
                 problems.append(("C06:store-altered", "gc altered or created objects"))
         if not load_fail and res[1] != len(unused):
@@ -169,6 +268,60 @@ def run_case(ctx, case, fo, dirs, F):
     nontrivial = res[0] != "ok" or (0 < len(after) < len(before))
     impl.rm_rf(root)
     return inp, exp, problems, nontrivial, res
+
+
+VERIF = os.path.dirname(os.path.dirname(os.path.dirname(os.path.abspath(__file__))))
+
+
+def load_corpus():
+    out = []
+    for p in sorted(glob.glob(os.path.join(VERIF, "corpus", "C06", "*.json"))):
+        with open(p, encoding="utf-8") as f:
+            body = json.load(f)
+        for c in body if isinstance(body, list) else [body]:
+            c = dict(c)
+            c.pop("note", None)
+            out.append(c)
+    return out
+
+
+def gen_bulk(ctx, cases):
+    """large- and medium-store cases: a small structural case + planted bulk file objects.
+    The number of UNUSED bulk objects is what a batching implementation would count: put it on and
+    around multiples of the listing page size (1000) and at random sizes."""
+    rng = ctx.rng
+    n_big = ctx.n(4, 16)
+    n_med = ctx.n(2, 10)
+    md5_cap = 1100 if ctx.tier == "quick" else 2300
+    plan = []
+    classes = ["local", "base"]
+    flip = 0
+    for j in range(n_big):
+        shape = "md5" if j % 2 == 0 else "short"
+        dry = (j // 2) % 2 == 0
+        if j % 2 == 0:
+            flip = rng.randint(0, 1)  # per (dry|real) pair: which shape gets which store class
+        if shape == "md5":
+            unused = rng.choice([1000, 1001, rng.randint(1002, md5_cap), rng.randint(1002, md5_cap)])
+        else:
+            unused = rng.choice([1000, 1001, 1999, 2000, 2001, rng.randint(1002, 2300), rng.randint(1002, 2300)])
+        plan.append((shape, dry, unused, classes[(j + flip) % 2]))
+    for _ in range(n_med):
+        plan.append(("short" if rng.random() < 0.7 else "md5", rng.random() < 0.5, rng.randint(20, 999),
+                     rng.choice(classes)))
+    out = []
+    for shape, dry, unused, cls in plan:
+        base = dict(rng.choice(cases))
+        k = rng.choice([0, 1, 2, 2, 3])
+        n = unused + k
+        c = {**base, "dry": dry, "cls": cls, "used_kind": rng.choice(USED_KINDS),
+             "bulk": {"n": n, "shape": shape, "used": sorted(rng.sample(range(n), k))}}
+        if rng.random() < 0.3:
+            c["sep_cache"] = True
+        if rng.random() < 0.2:
+            c["stray"] = True
+        out.append(c)
+    return out
 
 
 def run(ctx):
@@ -194,24 +347,36 @@ def run(ctx):
             c["cache_state"] = {ctx.rng.choice(list(dirs)): ctx.rng.choice(["corrupt", "notalist", "missing"])}
         if ctx.rng.random() < 0.15:
             c["alg"] = "md5-dos2unix"
-    corpus = [
+        c["used_kind"] = ctx.rng.choice(USED_KINDS)
+    bulk_cases = gen_bulk(ctx, cases)
+    corpus = load_corpus() + [
         {"files": [0, 1], "dirs": ["D1"], "used": [("md5", "D1")], "shallow": False, "dry": False, "cls": "local"},
         {"files": [0, 1, 2], "dirs": ["D1", "D2"], "used": [("md5", "D2")], "shallow": False, "dry": True, "cls": "base"},
         {"files": [0], "dirs": ["D3"], "used": [], "shallow": True, "dry": False, "cls": "local"},
     ]
-    items = []
-    for c in corpus + sample:
+    ctx.count("corpus", len(corpus))
+    items, big_items = [], []
+    for c in corpus + sample + bulk_cases:
         inp, exp, problems, nontrivial, res = run_case(ctx, c, fo, dirs, F)
         ctx.case(c, nontrivial)
         ctx.count("result:" + ("ok" if res[0] == "ok" else f"err{res[1]}"))
         ctx.count("mode:" + ("shallow" if c["shallow"] else "expand") + ("/dry" if c["dry"] else "/real"))
         ctx.count("class:" + c.get("cls", "local"))
+        ctx.count("used_as:" + c.get("used_kind", "list"))
+        b = c.get("bulk")
+        if b:
+            ctx.count("store:" + ("large(>=1000)" if b["n"] >= 1000 else "medium(20..999)") + "/" + b["shape"]
+                      + ("/dry" if c["dry"] else "/real"))
+        else:
+            ctx.count("store:small")
         for sig, what in problems:
             ctx.oracle_fail(sig, what, c)
-        items.append((c, inp, exp))
+        (big_items if b and b["n"] >= 400 else items).append((c, inp, exp))
     ctx.obligation("oracle:gc", not any(v.kind == "oracle" for v in ctx.violations),
-                   f"{len(items)} real gc runs judged by the independent set-difference oracle")
-    ctx.correspond("gc", IMPORTS, "gc_in", "fun i => enc_gc_out (gc i)", items)
+                   f"{len(items) + len(big_items)} real gc runs judged by the independent set-difference oracle")
+    # the large stores have big literals: one per shard, at its head (parallel coqc)
+    allitems, shard = interleave(items, big_items)
+    ctx.correspond("gc", IMPORTS, "gc_in", "fun i => enc_gc_out (gc i)", allitems, shard=shard)
     ctx.extra["exhaustive"] = False if ctx.tier == "quick" else (len(sample) == len(full))
 
 
